@@ -4,7 +4,7 @@ PIPEFIX = ["engine/umem_count.c", "engine/pipefix.c", "engine/fake_upump.c", "en
 HOLDMODS = lib("upipe-modules", only=["upipe_time_limit.c", "upipe_rate_limit.c", "upipe_buffer.c", "upipe_discard_blocking.c", "upipe_burst.c",
                                         "upipe_convert_to_block.c", "upipe_genaux.c", "upipe_trickplay.c", "upipe_even.c", "upipe_audio_copy.c"])
 def _ex(n):
-    return dict(name="hold", harness="harness/pipes_hold.c", repo=LIBUPIPE + HOLDMODS, engine=PIPEFIX, cflags=["-DPIPES_PROP=%d" % n], share=1.0)
+    return dict(name="hold", harness="harness/pipes_hold.c", repo=LIBUPIPE + HOLDMODS, engine=PIPEFIX, cflags=["-DPIPES_PROP=%d" % n], share=1.0, case_scale=0.5)
 ADD = {"C01": [_ex(1)], "C04": [_ex(4)], "C05": [_ex(5)], "C20": [_ex(20)]}
 
 _GEN = ("[hold] tape-decoded legal history (<=48 ops) over ONE holding pipe (time_limit, rate_limit, buffer, discard_blocking, burst, convert_to_block, genaux, "
